@@ -74,6 +74,20 @@
     r.is_ok() ==> final(self).inv() && same_handle(*old(self), *final(self)) && final(self).len == old(self).len + slice@.len()
       && final(self).mem@ == splice(old(self).mem@, old(self).off() + old(self).len as int, slice@), // [C14]
 //@@end
+//@@fn file=bytes.rs src=expanded scope="%WRSCOPE%" name=write rename=io_write%SFX% xlate=plain props=C14
+//@subst /self\.put_slice\(/ => self.put_slice%SFX%(
+//@contract
+  requires old(self).inv(), buf@.len() <= isize::MAX as int, // Rust: no slice is larger than isize::MAX bytes
+  ensures
+    r.is_err() <==> old(self).len + buf@.len() > old(self).cap(), // [C14]
+    r.is_err() ==> *final(self) == *old(self), // [C14]
+    r matches Ok(n) ==> n == buf@.len() && final(self).inv() && same_handle(*old(self), *final(self)) && final(self).len == old(self).len + buf@.len()
+      && final(self).mem@ == splice(old(self).mem@, old(self).off() + old(self).len as int, buf@), // [C14]
+//@@end
+//@@fn file=bytes.rs src=expanded scope="%WRSCOPE%" name=flush rename=io_flush%SFX% xlate=plain props=C14
+//@contract
+  ensures r.is_ok(), *final(self) == *old(self), // [C14]
+//@@end
 //@@fn file=bytes.rs src=expanded scope="%SCOPE%" name=get_u8_unchecked rename=get_u8_unchecked%SFX% xlate=plain props=C14
 //@subst /let buf = self\.buffer\(\);\s*let value = buf\[(.+?)\];/ => let value = self.buf_read_u8(\1);
 //@contract
